@@ -291,7 +291,9 @@ AUDIT = {
                        'cleared when the answer is yes and refilled with the same names when it is no'),
     ('project.py', 'Project.__init__', 'set(dyn_modules or [])'): (M, '', 'PIN', 'dyn_modules: in'),
     ('project.py', 'Project.list_packages', 'set()'):
-        (S, 'assist', 'PIN', 'returned set is sorted by assistant.list_packages or re-unioned and sorted in assist'),
+        (S, 'assist', 'PIN', 'the returned set has ONE direct consumer: sorted(r for r in project.list_packages(root)) in '
+                             'assistant.list_packages (the tracer also lists the callers of that same-named function: they receive '
+                             'the sorted list or [] -- `plist` -- and return it as is or re-union it and sort again)'),
     ('project.py', 'Project.check_changes', 'self._module_cache.values()'): (M, '', 'PIN', 'any(...)'),
     ('scope.py', 'Scope.__init__', 'set()'):
         (B, '', 'PIN', 'locals / globals: add, remove, in, difference; {n: names[n] for n in locals} builds the class attribute dict '
@@ -338,7 +340,7 @@ PINS = {
     ('name.py', 'RuntimeName._attrs', 'iteritems(vars(self.value))'): ('2918a9f10593',),
     ('project.py', 'Project.__init__', 'set()'): ('312408ef1df8',),
     ('project.py', 'Project.__init__', 'set(dyn_modules or [])'): ('018c17cee725',),
-    ('project.py', 'Project.list_packages', 'set()'): ('14e91483155f',),
+    ('project.py', 'Project.list_packages', 'set()'): ('c93883abcb17',),
     ('project.py', 'Project.check_changes', 'self._module_cache.values()'): ('15161338bf82',),
     ('scope.py', 'Scope.__init__', 'set()'): ('bb25f8f19765', 'f00aa2331fa8'),
     ('scope.py', 'SourceScope.resolve_star_imports', 'iterkeys(module._attrs)'): ('5468ce19e3fc',),
